@@ -7,6 +7,7 @@
   `Model/Views.lean`, which look demes up through the name index as the implementation does.
 -/
 import DemesVerif.Proofs.Events
+import DemesVerif.Proofs.Records
 namespace Demes.Theorems
 open Demes Demes.Spec
 
@@ -63,6 +64,111 @@ theorem events_partition_count (g : Graph) (hv : validGraph g = true) (d : Deme)
     (accountedChildren g).count d.name = if d.ancestors.isEmpty then 0 else 1 :=
   Proofs.events_partition_count g hv d hd
 
+/-! ### record validation (`Split` / `Branch` / `Merge` / `Admix`, demes/demes.py:585-1015)
+
+`discreteEvents` (Model/Views.lean) returns `none` only for a failing lookup; the record classes'
+own validators are `splitRecordOk`, `branchRecordOk`, `mergeRecordOk`, `admixRecordOk`
+(Model/Records.lean: the field validators in attrs order, `_check_proportions`,
+`__attrs_post_init__`), and `discreteEventsChecked` is the function with every record validated at
+the place the implementation constructs it. -/
+
+/-- Every record `discrete_demographic_events()` constructs on a valid graph passes the validation
+of its class: the constructor calls do not raise. -/
+theorem events_records_valid (g : Graph) (hv : validGraph g = true) (ev : Events)
+    (hev : discreteEvents g = some ev) :
+    (∀ s ∈ ev.splits, splitRecordOk s.parent s.children (Num.fin s.time) = true)
+      ∧ (∀ b ∈ ev.branches, branchRecordOk b.parent b.child (Num.ofETime b.time) = true)
+      ∧ (∀ m ∈ ev.mergers,
+          mergeRecordOk m.parents (m.proportions.map Num.fin) m.child (Num.ofETime m.time) = true)
+      ∧ (∀ m ∈ ev.admixtures,
+          admixRecordOk m.parents (m.proportions.map Num.fin) m.child (Num.ofETime m.time) = true) :=
+  Proofs.Rec.events_records_valid g hv ev hev
+
+/-- `discrete_demographic_events()` with its record validation does not raise on a valid graph and
+returns what the unchecked Model function returns — so everything `events_spec` says about
+`discreteEvents` holds of the validating function. -/
+theorem events_checked_total (g : Graph) (hv : validGraph g = true) :
+    ∃ ev, discreteEventsChecked g = .ok ev ∧ discreteEvents g = some ev :=
+  Proofs.Rec.events_checked_total g hv
+
+/-- `events_spec` for the validating function. -/
+theorem events_checked_spec (g : Graph) (hv : validGraph g = true) :
+    ∃ ev, discreteEventsChecked g = .ok ev ∧ ev.pulses = g.pulses
+      ∧ ev.branches = specBranches g ∧ ev.mergers = specMergers g
+      ∧ ev.admixtures = specAdmixtures g ∧ splitsAgree ev.splits (specSplits g) :=
+  Proofs.Rec.events_checked_spec g hv
+
+/-- What `Split(parent, children, time)` accepts: identifiers, at least one child, a finite
+non-negative time, the parent not among the children, no child twice. -/
+theorem split_record_meaning (parent : String) (children : List String) (time : Num) :
+    splitRecordOk parent children time = true ↔
+      isIdentifier parent = true ∧ (∀ c ∈ children, isIdentifier c = true) ∧ children ≠ []
+        ∧ (∃ q, time = Num.fin q ∧ 0 ≤ q) ∧ parent ∉ children ∧ children.Nodup :=
+  Proofs.Rec.splitRecordOk_iff parent children time
+
+/-- What `Branch(parent, child, time)` accepts. -/
+theorem branch_record_meaning (parent child : String) (time : Num) :
+    branchRecordOk parent child time = true ↔
+      isIdentifier parent = true ∧ isIdentifier child = true
+        ∧ (∃ q, time = Num.fin q ∧ 0 ≤ q) ∧ child ≠ parent :=
+  Proofs.Rec.branchRecordOk_iff parent child time
+
+/-- `Merge` and `Admix` validate alike. -/
+theorem admix_record_is_merge_record (parents : List String) (proportions : List Num)
+    (child : String) (time : Num) :
+    admixRecordOk parents proportions child time = mergeRecordOk parents proportions child time :=
+  Proofs.Rec.admixRecord_eq_mergeRecord parents proportions child time
+
+/-- The predicates are not vacuous: a split whose parent is among its children is refused. -/
+theorem split_parent_among_children_rejects (parent : String) (children : List String) (time : Num)
+    (h : parent ∈ children) : splitRecordOk parent children time = false :=
+  Proofs.Rec.split_parent_among_children_rejects parent children time h
+
+/-- A split that repeats a child is refused. -/
+theorem split_repeated_child_rejects (parent : String) (children : List String) (time : Num)
+    (h : ¬ children.Nodup) : splitRecordOk parent children time = false :=
+  Proofs.Rec.split_repeated_child_rejects parent children time h
+
+/-- A branch off itself is refused. -/
+theorem branch_of_itself_rejects (name : String) (time : Num) :
+    branchRecordOk name name time = false :=
+  Proofs.Rec.branch_of_itself_rejects name time
+
+/-- A time that is NaN, infinite or negative is refused by the `time` field of all four classes. -/
+theorem record_time_rejects (t : Num)
+    (h : t = Num.nan ∨ t = Num.pinf ∨ t = Num.ninf ∨ ∃ q, t = Num.fin q ∧ q < 0) :
+    recordTimeOk t = false :=
+  Proofs.Rec.record_time_rejects t h
+
+/-- A merger or admixture with fewer than two parents is refused. -/
+theorem merge_fewer_than_two_parents_rejects (parents : List String) (proportions : List Num)
+    (child : String) (time : Num) (h : parents.length < 2) :
+    mergeRecordOk parents proportions child time = false
+      ∧ admixRecordOk parents proportions child time = false :=
+  Proofs.Rec.merge_fewer_than_two_parents_rejects parents proportions child time h
+
+/-- … with a number of proportions different from the number of parents. -/
+theorem merge_length_mismatch_rejects (parents : List String) (proportions : List Num)
+    (child : String) (time : Num) (h : parents.length ≠ proportions.length) :
+    mergeRecordOk parents proportions child time = false
+      ∧ admixRecordOk parents proportions child time = false :=
+  Proofs.Rec.merge_length_mismatch_rejects parents proportions child time h
+
+/-- … whose child is one of the parents. -/
+theorem merge_child_among_parents_rejects (parents : List String) (proportions : List Num)
+    (child : String) (time : Num) (h : child ∈ parents) :
+    mergeRecordOk parents proportions child time = false
+      ∧ admixRecordOk parents proportions child time = false :=
+  Proofs.Rec.merge_child_among_parents_rejects parents proportions child time h
+
+/-- … whose (non-empty) proportions do not sum to one within `math.isclose`'s default tolerance. -/
+theorem merge_sum_not_one_rejects (parents : List String) (proportions : List Num)
+    (child : String) (time : Num) (hne : proportions ≠ [])
+    (h : recordSumIsOne proportions = false) :
+    mergeRecordOk parents proportions child time = false
+      ∧ admixRecordOk parents proportions child time = false :=
+  Proofs.Rec.merge_sum_not_one_rejects parents proportions child time hne h
+
 /-! ### non-vacuity
 
 `Proofs.eventsGraph`: roots `A`, `X`; `X` splits into `Y`; `A` splits into `B` and `C`; `D`
@@ -104,6 +210,41 @@ example :
       ("C", ["A"]), ("D", ["B"]), ("E", ["C", "D"]), ("F", ["B", "E"])]
     ∧ successors Proofs.eventsGraph = [("A", ["B", "C"]), ("X", ["Y"]), ("Y", []),
       ("B", ["D", "F"]), ("C", ["E"]), ("D", ["E"]), ("E", ["F"]), ("F", [])] := by
+  decide +kernel
+
+/-- the validating function on it: the same answer as the unchecked one -/
+example :
+    (discreteEventsChecked Proofs.eventsGraph).toOption = discreteEvents Proofs.eventsGraph
+      ∧ (discreteEventsChecked Proofs.eventsGraph).toOption.isSome = true := by
+  decide +kernel
+
+/-- the record predicates on its records, and on near misses: a split at a negative time, a split
+whose parent is a child, a merger whose proportions sum to 1 + 2⁻²⁹ (refused) resp. 1 + 2⁻³¹
+(accepted), one parent only, a repeated parent -/
+example :
+    splitRecordOk "A" ["B", "C"] (.fin 100) = true
+      ∧ splitRecordOk "A" ["B", "C"] (.fin (-1)) = false
+      ∧ splitRecordOk "A" ["B", "A"] (.fin 100) = false
+      ∧ splitRecordOk "A" [] (.fin 100) = false
+      ∧ splitRecordOk "A" ["B", "not an identifier"] (.fin 100) = false
+      ∧ branchRecordOk "B" "D" (.fin 80) = true
+      ∧ branchRecordOk "B" "D" .pinf = false
+      ∧ mergeRecordOk ["C", "D"] [.fin (1/2), .fin (1/2)] "E" (.fin 50) = true
+      ∧ mergeRecordOk ["C", "D"] [.fin (1/2), .fin (1/2 + 1/2^31)] "E" (.fin 50) = true
+      ∧ mergeRecordOk ["C", "D"] [.fin (1/2), .fin (1/2 + 1/2^29)] "E" (.fin 50) = false
+      ∧ mergeRecordOk ["C", "D"] [.fin 1, .fin 0] "E" (.fin 50) = false
+      ∧ mergeRecordOk ["C"] [.fin 1] "E" (.fin 50) = false
+      ∧ mergeRecordOk ["C", "C"] [.fin (1/2), .fin (1/2)] "E" (.fin 50) = false
+      ∧ admixRecordOk ["B", "E"] [.fin (1/4), .fin (3/4)] "F" (.fin 20) = true
+      ∧ admixRecordOk ["B", "E"] [.fin (1/4), .nan] "F" (.fin 20) = false := by
+  decide +kernel
+
+/-- the validation is not idle: on a graph that is NOT valid (deme `B` lists `A` twice) the unchecked
+function still answers, the validating one raises as `Merge(...)` does -/
+example :
+    (discreteEvents Proofs.Rec.repeatedAncestorGraph).isSome = true
+      ∧ (discreteEventsChecked Proofs.Rec.repeatedAncestorGraph).toOption = none
+      ∧ validGraph Proofs.Rec.repeatedAncestorGraph = false := by
   decide +kernel
 
 end Demes.Theorems
